@@ -82,6 +82,8 @@ type Case struct {
 	Api      []bool `json:"api,omitempty"`    // stop: does the API accept writes during Stop attempt i
 	FailMs   int64  `json:"failMs,omitempty"` // stoprt: the API fails writes for this long from the loss on
 	PeriodMs int64  `json:"periodMs,omitempty"`
+	// overlap: starts of one shard hanging in Load while it is lost / re-gained
+	OOps []OOp `json:"oops,omitempty"`
 }
 
 // mode of one run of a case: record failures (else only report pass/fail, for shrinking), count it in the
@@ -169,6 +171,8 @@ func runCase(c *rig.Ctx, cs Case, m mode) int {
 		return runStop(c, cs, m)
 	case "stoprt":
 		return runStopRT(c, cs, m)
+	case "overlap":
+		return runOverlap(c, cs, m)
 	}
 	if m.record {
 		c.Fail(rig.Failure{Kind: "diff", Class: "c13.bad-case", What: "unknown case kind " + cs.Kind, Case: cs})
@@ -186,7 +190,7 @@ func shrink(c *rig.Ctx, cs Case, sev int, class string) Case {
 	// never trade a property violation for a difference, nor one class of violation for another
 	fails := func(x Case) bool {
 		got := runCase(c, x, mode{})
-		return got >= sev && (sev != violates || lastClass == class)
+		return got >= sev && lastClass == class
 	}
 	switch cs.Kind {
 	case "shard", "gateway":
@@ -221,6 +225,8 @@ func shrink(c *rig.Ctx, cs Case, sev int, class string) Case {
 				return fails(x)
 			})
 		}
+	case "overlap":
+		cs.OOps = rig.ShrinkList(cs.OOps, func(l []OOp) bool { x := cs; x.OOps = l; return fails(x) })
 	case "stop":
 		cs.Api = rig.ShrinkList(cs.Api, func(l []bool) bool { x := cs; x.Api = l; return fails(x) })
 	case "history":
@@ -307,6 +313,7 @@ func main() {
 		nK8s := c.Budget(400, 5000)
 		nGwHist := c.Budget(400, 6000)  // x 2-5 syncs x 8 names
 		nStop := c.Budget(400, 6000)
+		nOverlap := c.Budget(500, 8000)
 		nStopRT := min(c.Budget(6, 24), 24) // real time: ~2.5 s each, run concurrently
 		var rt []Case
 		for i := 0; i < nStopRT; i++ {
@@ -317,6 +324,9 @@ func main() {
 		}
 		for i := 0; i < nStop && nViolations < 3; i++ {
 			try(c, genStop(c, i))
+		}
+		for i := 0; i < nOverlap && nViolations < 3; i++ {
+			try(c, genOverlap(c, i))
 		}
 		for i := 0; i < nShard && nViolations < 3; i++ {
 			try(c, genShard(c, i))
